@@ -39,6 +39,15 @@ CLAIMED = {
  'C11': dict(cat=TV, tech='accept witnesses compiled by rustc; derived constant tables folded from MIR and compared with rustc AdtDef discriminants',
    text='Every instance of ' + CORPUS + ' must be accepted by the derive, and every table it emits (MIN/MAX, name table, variant table, run table with offsets) is constant-folded from its MIR initialiser and compared with the compiler\'s own discriminants; into/From must return the discriminant read.' + PER,
    note='trusts rustc (type check, MIR, AdtDef::discriminants) and the folder for literals/Neg/wrapping_sub/RangeInclusive::new; sizes near 65534 only in the thorough tier', ref='5 C11, 4.3'),
+ 'C12': dict(cat='other', tech='compile-fail witnesses: one reject witness per syntactic class (every syn::Expr form after `=`, literal kinds, field forms, item kinds, repr forms, i64 range, 65535 variants), each with a compiling twin; verdict = derive-raised rustc diagnostic located in the case',
+   text='The parser dispatches on the top-level syntax class of the discriminant expression / fields / item / repr attribute, so one witness per class covers the class; ~100 witnesses are compiled in two rustc runs; a reject case passes only if the derive itself raises an error in its module, a twin differing only by the offending tokens must compile. This is the compile-fail-witness technique; it observes rustc accept/reject and decides nothing about unseen syntax classes beyond the dispatch argument.',
+   note='rustc is the oracle for accept/reject; sizes above 65535 only in the thorough tier', ref='5 C12'),
+ 'C13': dict(cat='other', tech='compile-fail witnesses for each of the 18 feature parsers x malformation kind, repetition within/across attributes, whitelists, range/iter compatibility incl. 2^63-wide gaps, non-list forms, variant-level attributes; compiling twins',
+   text='~530 witnesses compiled in two rustc runs on gapless and with-holes enums: unknown, duplicated and wrong-kind parameters per parser; vis/mode outside the documented lists; features repeated in one attribute and across attributes; unknown features; range without iter or with table_inline; iter range mode on holes; bare / name-value / nested / path forms; every variant attribute form other than rename = "literal". Each reject case must get a derive-raised diagnostic in its own module.',
+   note='rustc is the oracle for accept/reject; the closedness of each parser (leftover parameters reported) is witnessed per parser, not proved for unseen parameter names', ref='5 C13'),
+ 'C14': dict(cat='other', tech='bounded-exhaustive compile witnesses: all declaration orders of 2-4 variant families x every sorted configuration; sortedness oracle computed by the generator; locality of the check (adjacent pairs) makes n<=4 sufficient',
+   text='All permutations of 2-, 3- and 4-variant families (explicit, renamed with inverted name order, negative and i64::MIN first values, equal / prefix names, byte-wise case order) plus implicit-discriminant families, under sorted(value), sorted(name), both in either order, bare sorted and none: ~580 witnesses; accept iff the generator-side oracle says strictly sorted.',
+   note='rustc is the oracle for accept/reject; adjacency argument read from src/parser/values.rs', ref='5 C14'),
  'C15': dict(cat=TV, tech='resolved visibility, def paths and callees from tcx for a matrix of enum visibilities x vis/name/struct_name parameters; public-surface equality',
    text='For every instance of a matrix {enum visibility} x {vis absent, "", pub(crate), pub} x {name/struct_name given or not} x feature sets that pull in helpers: each requested item exists under the requested name with exactly the requested resolved visibility (default: the enum\'s), the named struct is the one the function returns, every other associated item / field is private to the enum\'s module, the set of trait impls equals the requested one, and delegating features call the user-named item.',
    note='visibility is rustc\'s resolved tcx.visibility; reachability from outside follows from it', ref='5 C15'),
